@@ -1,7 +1,7 @@
 #!/usr/bin/env python3
 """Builds selftest/SEEDED_RESULTS_r34.json (the 'now' column for rounds 3 and 4): changes caught by the first run keep that row (the checks
 have only been extended since); changes missed by the first run take the row of the re-run against the current checks
-(selftest/SEEDED_RESULTS_r34_missed.json, produced by run_mutants.py --file selftest/seeded34_missed.json), or of a later single run
+(selftest/seeded34_rerun_rows.json, produced by run_mutants.py --file selftest/seeded34_missed.json), or of a later single run
 recorded in selftest/seeded34_single_runs.json."""
 import json, os
 V = os.path.dirname(os.path.dirname(os.path.abspath(__file__)))
@@ -9,7 +9,7 @@ def load(n):
     p = os.path.join(V, "selftest", n)
     return json.load(open(p)) if os.path.exists(p) else []
 first = {r["id"]: r for r in load("seeded3_first_run.json") + load("seeded4_first_run.json")}
-rerun = {r["id"]: r for r in load("SEEDED_RESULTS_r34_missed.json")}
+rerun = {r["id"]: r for r in load("seeded34_rerun_rows.json")}
 single = {r["id"]: r for r in load("seeded34_single_runs.json")}
 rows = []
 for i, r in sorted(first.items()):
